@@ -241,3 +241,32 @@ def u_build_initial(ip):
     kw = {k.arg: k.value for k in ret.value.keywords}
     c.oblige("engine_gets_these_states", isinstance(kw.get("model_states"), ast.Name) and kw["model_states"].id == "model_states")
     c.oblige("engine_gets_engine_key", isinstance(kw.get("seeds"), ast.Name) and kw["seeds"].id == "seeds")
+
+
+@unit("C10.init_and_quantity_keys", "C10", ["liesel/goose/kernel_sequence.py::KernelSequence.init_states", f"{E}._generate_quantity"], summaries=[f"{E}._split_prng_key_one (C10.engine_key_ownership)"])
+def u_init_keys(ip):
+    """kernel states are initialised with distinct children of one split (kernel i gets child i); each quantity generator of the
+    initial-values epoch gets its own fresh engine draw; no key is consumed twice."""
+    c = ip.ctx
+    got = []
+    ks = [PyObj(f"k{i}", init_state=PyFn(lambda ip_, key, ms, i=i: (got.append((i, key)), z3.Const(f"st{i}", U))[1], "init_state")) for i in range(3)]
+    seq = new_obj(ip, "liesel/goose/kernel_sequence.py::KernelSequence", _kernels=ks)
+    key = z3.Const("key", U)
+    ip.call(method(ip, seq, "init_states"), [key, z3.Const("ms", U)], {})
+    c.oblige("kernel_i_initialised_with_child_i", [i for i, _ in got] == [0, 1, 2] and all(k.eq(ip.uf("split", key, z3.IntVal(i))) for i, k in got))
+    install_engine_models(ip)
+    eng = sym_engine(ip)
+    n = {"i": 0}
+
+    def one(ip_, args, kwargs):
+        n["i"] += 1
+        return z3.Const(f"engine_draw_{n['i']}", U)
+
+    ip.summaries[f"{E}._split_prng_key_one"] = one
+    qkeys = []
+    mk = lambda ident: PyObj(ident, identifier=ident, generate=PyFn(lambda ip_, key, ms, ep: (qkeys.append(key), z3.Const("q", U))[1], "generate"))  # noqa: E731
+    eng.f["_quantity_generators"] = [mk("q0"), mk("q1")]
+    eng.f["_epoch"] = sym_epoch_state(ip)
+    res = ip.call(method(ip, eng, "_generate_quantity"), [], {})
+    c.oblige("each_generator_gets_its_own_draw", len(qkeys) == 2 and str(qkeys[0]) != str(qkeys[1]) and list(res) == ["q0", "q1"])
+    c.oblige("no_key_consumed_twice", not c.ghost.get("key_reuse"))
